@@ -236,6 +236,7 @@ func c20Seq(ctx *core.Ctx, N int, thorough bool) core.Result {
 			lg := go9p.NewLogger(N)
 			var logged []ent // logged[i].id == i+1
 			jlo := 0         // smallest ring position consistent with everything seen so far
+			blocked := false // a call on this logger never returned: nothing further can be learnt from it
 			fail := func(sig, what string) {
 				res.Violate(fmt.Sprintf("C20;%s;N=%d", sig, N), fmt.Sprintf("%s [capacity %d, %d entries logged so far, sequential]", what, N, len(logged)), nil)
 			}
@@ -243,6 +244,7 @@ func c20Seq(ctx *core.Ctx, N int, thorough bool) core.Result {
 				var got []*go9p.Log
 				if !call(func() { got = lg.Filter(ownerArg(fo), ft) }) {
 					fail("filter-blocks", "Filter did not return")
+					blocked = true
 					return false
 				}
 				res.Evals++
@@ -311,6 +313,7 @@ func c20Seq(ctx *core.Ctx, N int, thorough bool) core.Result {
 				logged = append(logged, e)
 				if !call(func() { lg.Log(e.id, owners[e.owner], e.typ) }) {
 					fail("log-blocks", "Log did not return")
+					blocked = true
 					break
 				}
 				if r.Intn(4) == 0 || i == total-1 {
@@ -320,6 +323,10 @@ func c20Seq(ctx *core.Ctx, N int, thorough bool) core.Result {
 					}
 				}
 			}
+			if blocked {
+				return res
+			}
+			ctx.Beat()
 			// convergence after logging stops: exact, within 10 000 polls
 			if len(res.Violations) == 0 {
 				converged := false
@@ -336,8 +343,13 @@ func c20Seq(ctx *core.Ctx, N int, thorough bool) core.Result {
 					fail("no-convergence", "after logging stopped Filter never returned the last entries")
 				}
 				for _, f := range filters {
-					check(f[0], f[1], true)
+					if !blocked {
+						check(f[0], f[1], true)
+					}
 				}
+			}
+			if blocked {
+				return res
 			}
 			res.Sig(fmt.Sprintf("seq|N=%d|len=%s|rep=%d", N, lclass(total, N), rep%3))
 			if rep == 0 && total == 2*N+1 {
